@@ -11,15 +11,16 @@
      outs_agree        results equal, pre-/post-order equal up to permutation *)
 From Coq Require Import ZArith List Bool Permutation.
 From FV Require Import C10.Spec C10.Model C10.Proofs C10.ProofsIns C10.ProofsDel C10.ProofsIter
-  C10.ProofsRefine C10.ProofsDrive C10.ProofsTop C10.Run C10.ProofsRun.
+  C10.ProofsRefine C10.ProofsDrive C10.ProofsTop C10.Run C10.ProofsRun C10.ModelCmp C10.ProofsCmp.
 Import ListNotations.
 Open Scope Z_scope.
 
 (* "After any sequence of insertions, replacements, removals, clears and removals through
    iterators, every query - lookup, size, first/last, floor, ceiling and higher neighbours, key
    and value listings, ascending and descending iteration, traversals - agrees with a sorted
-   map holding the same associations": for EVERY operation sequence (all 31 operations of the
-   model, any keys, any length) the results of the tree model equal the results of the
+   map holding the same associations": for EVERY operation sequence (all 34 operations of the
+   model - including SetValue / Equals on the live entries handed out by the accessors and by
+   entry iterators - any keys, any length) the results of the tree model equal the results of the
    reference sorted association list, position by position. *)
 Theorem c10_refines_sorted_map : forall ops : list op,
   outs_agree ops (snd (mrun minit ops)) (snd (srun sinit ops)).
@@ -120,6 +121,35 @@ Theorem c10_no_undefined : forall (ops : list op) slot it,
 Proof. exact reach_iter_wellformed. Qed.
 Print Assumptions c10_no_undefined.
 
+(* The comparator contract is "negative / zero / positive".  The key-comparing descents of
+   the code, transcribed with an arbitrary comparator cmp (ModelCmp.v: Put, getEntry+deleteEntry,
+   getEntry, the four neighbour searches), depend on cmp only through its sign: with ANY
+   comparator that has the sign of the key order they are the model's operations, and two
+   comparators with the same sign function are indistinguishable. *)
+Theorem c10_comparator_sign_only : forall cmp : Z -> Z -> Z,
+  (forall a b, Z.sgn (cmp a b) = Z.sgn (a - b)) ->
+  (forall k v t, put_by cmp k v t = put k v t) /\
+  (forall k t, remove_by cmp k t = remove k t) /\
+  (forall k t, lookup_by cmp k t = lookup k t) /\
+  (forall k t, ceiling_by cmp k t None = ceiling k t) /\
+  (forall k t, higher_by cmp k t None = higher k t) /\
+  (forall k t, floor_by cmp k t None = floor k t) /\
+  (forall k t, lower_by cmp k t None = lower k t).
+Proof. exact by_eq. Qed.
+Print Assumptions c10_comparator_sign_only.
+
+Theorem c10_same_sign_same_operations : forall cmp1 cmp2 : Z -> Z -> Z,
+  (forall a b, Z.sgn (cmp1 a b) = Z.sgn (cmp2 a b)) ->
+  (forall k v t, put_by cmp1 k v t = put_by cmp2 k v t) /\
+  (forall k t, remove_by cmp1 k t = remove_by cmp2 k t) /\
+  (forall k t, lookup_by cmp1 k t = lookup_by cmp2 k t) /\
+  (forall k t anc, ceiling_by cmp1 k t anc = ceiling_by cmp2 k t anc) /\
+  (forall k t anc, higher_by cmp1 k t anc = higher_by cmp2 k t anc) /\
+  (forall k t anc, floor_by cmp1 k t anc = floor_by cmp2 k t anc) /\
+  (forall k t anc, lower_by cmp1 k t anc = lower_by cmp2 k t anc).
+Proof. exact same_sign_same_ops. Qed.
+Print Assumptions c10_same_sign_same_operations.
+
 (* the executable checkers that Run.v evaluates on the implementation's dumped tree mean what
    the theorems above say (red-black rules, search-tree order, the height bound, equality
    with the model's tree), and the probe's dump encoding determines the tree *)
@@ -152,6 +182,11 @@ Example c10_example_descending_remove :
   snd r = [OUnit; OKeys [7; 70]; OKeys [6; 60]; OUnit; OKeys [5; 50]; OKeys [4; 40]; OUnit;
            OKeys [3; 30]; OKeys [2; 20]; OUnit; OKeys [1; 10]; OBool false; OKeys [1; 3; 5; 7]].
 Proof. vm_compute. reflexivity. Qed.
+
+(* both comparators of the harness (-1/0/+1 and the key difference) meet the hypothesis *)
+Example c10_example_comparators :
+  (forall a b, Z.sgn (cmp_sign a b) = Z.sgn (a - b)) /\ (forall a b, Z.sgn (cmp_diff a b) = Z.sgn (a - b)).
+Proof. split; [exact cmp_sign_ok|exact cmp_diff_ok]. Qed.
 
 (* Clear invalidates a live iterator: its Remove reports a concurrent modification and the
    size stays 0 (the unrepaired code answered Size() = -1) *)
